@@ -13,7 +13,7 @@ import sys
 import numpy as np
 import pandas as pd
 
-TEMPLATES = ["once", "stateful", "targetvol", "random", "nested", "perm", "momentum", "overtime_nested", "equal_limit", "replay", "dictnode"]
+TEMPLATES = ["once", "stateful", "targetvol", "random", "nested", "perm", "momentum", "overtime_nested", "equal_limit", "replay", "dictnode", "lazy_mult"]
 CONFIGS = [
     {"data": "d25", "fee": None, "integer": True},
     {"data": "d12", "fee": "propdec", "integer": False},
@@ -51,6 +51,9 @@ def template(name, idx):
         return bt.Strategy("t", [log, A.ClosePositionsAfterDates("closes"), A.RunDaily(), A.SelectThese(["a", "b", "d"]), A.SelectActive(), A.WeighEqually(), A.Rebalance()], [bt.Security("a"), bt.Security("b"), bt.Security("d")])
     if name == "perm_random":
         return bt.Strategy("t", [log, A.ClosePositionsAfterDates("closes"), A.RunDaily(), A.SelectAll(), A.SelectActive(), A.SelectRandomly(2), A.WeighRandomly(), A.Rebalance()], [bt.Security("a"), bt.Security("b"), bt.Security("c"), bt.Security("d")])
+    if name == "lazy_mult":
+        # a lazily added security with a contract size of its own: every backtest built from the template gets its own
+        return bt.Strategy("t", [log, A.RunWeekly(), A.SelectThese(["a", "b"]), A.WeighSpecified(a=0.5, b=0.25), A.Rebalance()], [bt.Security("a", multiplier=2, lazy_add=True), "b"])
     if name == "dictnode":
         # one node object first handed to another strategy under a different key: it stays the caller's 'a'
         node = bt.Security("a")
@@ -90,7 +93,9 @@ def inputs(cfg):
     closes = pd.DataFrame({"date": [idx[len(idx) // 2], idx[3]]}, index=["a", "d"])
     # a table on the data's own index (Backtest re-frames such tables with the synthetic first row:
     # it must do so on its own copy of the dict)
-    ad = {"closes": closes, "sig": pd.DataFrame(True, index=idx, columns=data.columns)}
+    sig = pd.DataFrame(True, index=idx, columns=pd.Index(list(data.columns), name="isin"))
+    data.columns.name = "ticker"
+    ad = {"closes": closes, "sig": sig}
     # a blotter grouped by security (not sorted by time), on its own index: handed through by reference
     rows = [(idx[i], c, q, float(data[c].iloc[i]) + 0.25) for c, qs in (("a", (4.0, -2.0, 6.0)), ("b", (2.0, 2.0, -4.0))) for i, q in zip((7, 2, 4) if c == "a" else (1, 6, 3), qs)]
     ad["tx"] = pd.DataFrame({"quantity": [r[2] for r in rows], "price": [r[3] for r in rows]}, index=pd.MultiIndex.from_tuples([(r[0], r[1]) for r in rows], names=["Date", "Security"]))
@@ -104,6 +109,7 @@ def frames_digest(data, ad):
     for name, fr in [("data", data)] + sorted(ad.items()):
         h.update(name.encode())
         h.update(repr(list(fr.columns)).encode())
+        h.update(repr((fr.columns.names, fr.index.names)).encode())  # axis labels are the caller's too
         h.update(repr([str(x) for x in fr.index]).encode())
         h.update(repr(fr.to_numpy().tolist()).encode())
     return h.hexdigest()
@@ -273,7 +279,7 @@ def run(ctx):
     kinds = ["py"] if ctx.tier == "quick" else ["py", "cy"]
     if ctx.tier == "quick":
         k0 = ctx.seed % len(TEMPLATES)
-        tn = sorted(set([TEMPLATES[k0], TEMPLATES[(k0 + 3) % len(TEMPLATES)], "perm", "targetvol", "random", "equal_limit", "replay", "dictnode"]))
+        tn = sorted(set([TEMPLATES[k0], TEMPLATES[(k0 + 3) % len(TEMPLATES)], "perm", "targetvol", "random", "equal_limit", "replay", "dictnode", "lazy_mult"]))
         seeds = [0, 1, 2, 3]
     else:
         tn = TEMPLATES
